@@ -273,9 +273,19 @@ def play_check(ctx, seconds):
     binary = cli.build_binary()
     rnd = random.Random(ctx.seed * 7919 + 17)
     tot_typed = tot_acc = tot_eng = 0
-    for colour in ("white", "black"):
-        events, typed, accepted, engine_moves, verdict = play_session(binary, colour, seconds / 2.0, rnd)
-        bad, _ = validate(ctx, events, "play_" + colour)
+    t_all = time.time()
+    sessions = []
+    # games end early when the random "human" gets mated: new games are started until the time is used
+    while True:
+        for colour in ("white", "black"):
+            left = seconds - (time.time() - t_all)
+            if sessions and left < 15:
+                break
+            sessions.append((colour,) + play_session(binary, colour, max(15.0, min(seconds / 2.0, left)), rnd))
+        if time.time() - t_all > seconds - 15 or len(sessions) >= 40:
+            break
+    for si, (colour, events, typed, accepted, engine_moves, verdict) in enumerate(sessions):
+        bad, _ = validate(ctx, events, "play_%s_%d" % (colour, si))
         ctx.traces += 1
         for ev, why, x in bad:
             is_cli = ev["ev"] == "Cli"
